@@ -12,7 +12,7 @@ def _helper_sum_fact_xk(n, x):
     n_fact = factorial(n)
     k_factorial = scipy.special.factorial(np.arange(n + 1))
     x_power = np.power(abs(x), np.arange(n + 1))
-    res = n_fact * np.dot(x_power, k_factorial)
+    res = n_fact * np.sum(x_power / k_factorial)
 
     return res
 
@@ -28,9 +28,11 @@ def integral_xn_exp_minus_x(n: int, a: float, b: float, alpha: float):
         ) + integral_xn_exp_minus_x(n=n, a=0.0, b=b, alpha=alpha)
 
     aux = alpha ** (n + 1)
+    # on the negative half-line x^n = (-1)^n |x|^n and the orientation of [a, b] is reversed by x -> |x|
+    sign = (-1) ** (n + 1) if a < 0 else 1
 
     def helper(u):
-        return _helper_sum_fact_xk(n, u * alpha) * np.exp(-abs(u) * alpha) / aux
+        return sign * _helper_sum_fact_xk(n, u * alpha) * np.exp(-abs(u) * alpha) / aux
 
     if a == -np.inf:
         return -helper(b)
